@@ -269,7 +269,8 @@ func (w *world) randFilter() filt {
 func newWorld(r *vlib.Rand) *world {
 	w := &world{r: r, nAS: r.Range(2, 5), core: r.Bool(), intfs: map[uint16]ifstate.InterfaceInfo{}}
 	w.local = w.randIA()
-	lts := []topology.LinkType{topology.Core, topology.Parent, topology.Child, topology.Peer}
+	// every link type value: the four named ones, Unset (missing/unknown link_to) and undefined numbers
+	lts := []topology.LinkType{topology.Core, topology.Parent, topology.Child, topology.Peer, topology.Unset, topology.LinkType(5), topology.LinkType(77)}
 	for i, n := 0, r.Range(2, 5); i < n; i++ {
 		id := uint16(r.Range(1, 9))
 		if _, ok := w.intfs[id]; ok {
@@ -479,8 +480,10 @@ func ltName(l topology.LinkType) string {
 		return "child"
 	case topology.Peer:
 		return "peer"
+	case topology.Unset:
+		return "unset"
 	}
-	return "unset"
+	return fmt.Sprintf("other%d", int(l))
 }
 
 func hopsOf(ps *seg.PathSegment) []addr.IA {
@@ -501,7 +504,7 @@ func hopsStr(h []addr.IA) string {
 
 func main() {
 	e := vlib.Init()
-	e.Rule = "random AS (core/non-core, 2-5 interfaces of all link types, 2-3 policies with max length 0(default)/2..7/-1, " +
+	e.Rule = "random AS (core/non-core, 2-5 interfaces of every link type value (core, parent, child, peer, unset, undefined numbers), 2-3 policies with max length 0(default)/2..7/-1, " +
 		"AS/ISD block lists, AllowIsdLoop nil/true/false) over 3 ISDs x 2-5 ASes; per AS 5 received beacons (1-6 entries, " +
 		"mostly ending at neighbour->local, 8% wrong neighbour, 8% wrong next, 10% forged signature, 10% signed by another key, " +
 		"5% unknown interface) through BeaconFromPB + real Handler + real Store/CoreStore; then real Propagator.Run over the stored " +
